@@ -225,6 +225,20 @@ def layout(ctx, g):
         if lay in order and op in order:
             r.check(order.index(lay) < order.index(op), '%s is tried before %s' % (lay, op), g.cls, construct=Q, key='order %s %s' % (lay, op),
                     msg='token rule %s is defined after %s: "/*" or "//" would be lexed as operators' % (lay, op))
+    # the comment rules match exactly the comments of the language: `/*` up to the FIRST `*/`, `//` up to the end of the line.  Both
+    # languages are prefix free, so language equality also fixes WHICH prefix of the input the (first-match) regex engine takes.
+    from ..lexer import RegexNFA, included
+    for t in g.token_rules:
+        spec = {'COMMENT': r'/\*([^*]|\*+[^*/])*\*+/', 'SL_STRING': r'//[^\n]*\n'}.get(t.name)
+        if spec is None:
+            continue
+        a, b = RegexNFA(t.regex), RegexNFA(spec)
+        sub, w1 = included(a, b)
+        sup, w2 = included(b, a)
+        r.check(sub and sup, 'L(t_%s) is the comment language %s' % (t.name, spec), t.fn, construct=Q + '.t_' + t.name, key='comment-language',
+                msg='t_%s %r does not match exactly the comments of the language (%s): %s' % (
+                    t.name, t.regex, spec, ('it also matches %r' % w1) if not sub else ('%r is a comment it does not match as one token: the text '
+                                                                                     'behind it is swallowed or rejected' % w2)))
     pf = ctx.repo.func('bridgepoint.oal:parse')
     r.check(any(pm.match("_P.text_input(_T + '\\n', _L)", n) is not None for n in ast.walk(pf) if isinstance(n, ast.Call)),
             'parse() terminates the text with a newline (a trailing // comment needs it)', pf, construct='bridgepoint.oal:parse',
